@@ -139,7 +139,16 @@ func DateTimeFromString(env Environment, str string, fillTime bool) (time.Time, 
 	}
 
 	// combine our date and time
-	return time.Date(date.Year, time.Month(date.Month), date.Day, timeOfDay.Hour, timeOfDay.Minute, timeOfDay.Second, timeOfDay.Nanos, env.Timezone()), nil
+	combined := time.Date(date.Year, time.Month(date.Month), date.Day, timeOfDay.Hour, timeOfDay.Minute, timeOfDay.Second, timeOfDay.Nanos, env.Timezone())
+
+	// if that time of day doesn't exist on that day (e.g. midnight in a timezone which moves its clocks forward
+	// at midnight), we can get a time before the clock change, possibly on the previous day, so instead use the
+	// first time after the clock change
+	if !dates.ExtractDate(combined).Equal(date) {
+		_, combined = combined.ZoneBounds()
+	}
+
+	return combined, nil
 }
 
 // DateFromString returns a date constructed from the passed in string, or an error if we
